@@ -65,7 +65,7 @@ NS = 1_000_000_000
 SPIN_CAP = 2_500
 DELIVERY_CAP = 40_000
 CREEP_WINDOW = 8_000
-CREEP_NS_PER_DELIVERY = 50
+CREEP_NS_PER_DELIVERY = 1
 
 
 class HarnessBug(Exception):
@@ -776,7 +776,9 @@ def check_num(x, lo=0.0, hi=1e6):
 
 
 BV_SKIP_KEYS = ("arr", "tags", "net", "seed", "t0", "places", "at", "starters", "start_at", "nkeys", "n", "nb", "fan",
-                "shards", "parts", "nsteps", "horizon")
+                "shards", "parts", "nsteps", "horizon",
+                # window geometry: a zero / tiny window size makes SlidingWindow.assign_windows loop without events (CPU, not C07)
+                "size", "slide")
 
 
 def bv_candidates(cfg, path=()):
